@@ -580,68 +580,139 @@ func runWithdraw(p WithdrawParams, ops hx.Counter) []Case {
 }
 
 type DistributionParams struct {
-	Seed     uint64  `json:"chain_seed"`
-	Rate     int64   `json:"rate_per_second"`
-	Deposit  int64   `json:"deposit"`
-	Weight   string  `json:"weight"`
-	Expiry   uint64  `json:"claim_expiry"`
-	DtSubmit int64   `json:"seconds_before_submission"`
-	Dts      []int64 `json:"block_dts"`
+	Seed          uint64  `json:"chain_seed"`
+	Rate          int64   `json:"rate_per_second"`
+	Deposit       int64   `json:"deposit"`
+	Weight        string  `json:"weight"`
+	Expiry        uint64  `json:"claim_expiry"`
+	DtSubmit      int64   `json:"seconds_before_submission"`
+	Dts           []int64 `json:"block_dts"`
+	Dynamic       bool    `json:"dynamic_rate"`
+	DynPeriod     uint64  `json:"dynamic_rate_period"`
+	ClaimStartRel int64   `json:"claim_start_seconds_after_creation"` // 0 = claim_start 0
+	ClaimEndRel   int64   `json:"claim_end_seconds_after_creation"`   // 0 = no claim end
+	UpdateWeight  string  `json:"weight_set_by_an_update_proposal_enacted_first"` // "" = none
+	RegisterLate  bool    `json:"second_beneficiary_registers_after_submission"`
+	ClaimBetween  bool    `json:"beneficiary_claims_between"`
+	DepositLater  int64   `json:"deposit_between"`
 }
 
+// Every input ClaimSpendingPool reads may differ between the dry run at submission and the enactment:
+// time relative to claim start / claim end / claim expiry / the last dynamic-rate recalculation, the
+// recorded balance (claims, deposits), the weight (an UpdateSpendingPool proposal enacted just before),
+// the registrations.
 func drawDistribution(r *hx.Rng, seed uint64, adversarial bool) DistributionParams {
 	p := DistributionParams{Seed: seed, Rate: pickI(r, 1, 10, 1000), Deposit: pickI(r, 100, 5000, 100000, 10000000), Weight: pickS(r, "1", "2", "0.5"),
 		Expiry: pickU(r, 0, 10, 1000000), DtSubmit: pickI(r, 1, 3, 20)}
 	if !adversarial {
 		p.Rate, p.Deposit, p.Expiry = 1, 100_000_000, 1000000
 	}
-	for b := 0; b < 3; b++ {
-		p.Dts = append(p.Dts, pickI(r, 11, 11, 500))
+	for b := 0; b < 4; b++ {
+		p.Dts = append(p.Dts, pickI(r, 11, 11, 30, 500))
 	}
+	p.Dynamic = r.Chance(45)
+	p.DynPeriod = pickU(r, 1, 5, 20, 60)
+	p.ClaimStartRel = pickI(r, 0, 0, 2, 40)
+	p.ClaimEndRel = pickI(r, 0, 0, 15, 25, 35, 60, 600)
+	if adversarial {
+		p.UpdateWeight = pickS(r, "", "", "-1", "1000", "0.000000000000000001")
+	}
+	p.RegisterLate = r.Chance(25)
+	p.ClaimBetween = r.Chance(35)
+	p.DepositLater = pickI(r, 0, 0, 1, 100000)
 	return p
 }
 
-// Distribution proposal: the claim made at enactment covers a longer period than the dry run at submission.
 func runDistribution(p DistributionParams, ops hx.Counter) []Case {
 	h := NewH(abci.Config{Accounts: 5, Validators: 2, Seed: p.Seed}, ops)
 	c := h.C
 	log := []string{fmt.Sprintf("chain accounts=5 validators=2 seed=%d", p.Seed)}
+	a1, a2, a3 := c.Accounts[1].Addr, c.Accounts[2].Addr, c.Accounts[3].Addr
+	var cstart, cend uint64
+	owners := spendingtypes.PermInfo{OwnerAccounts: []string{a1.String()}}
+	bens := func(w string) spendingtypes.WeightedPermInfo {
+		return spendingtypes.WeightedPermInfo{Accounts: []spendingtypes.WeightedAccount{{Account: a2.String(), Weight: dec(w)}, {Account: a3.String(), Weight: dec("1")}}}
+	}
+	rates := sdk.NewDecCoins(sdk.NewDecCoinFromDec("ukex", sdk.NewDec(p.Rate)))
 	h.Block(BlockReq{Dt: 5}, func() {
-		msg := spendingtypes.NewMsgCreateSpendingPool("dd", 0, 0, sdk.NewDecCoins(sdk.NewDecCoinFromDec("ukex", sdk.NewDec(p.Rate))), dec("0.5"), 10, 10,
-			spendingtypes.PermInfo{OwnerAccounts: []string{c.Accounts[1].Addr.String()}},
-			spendingtypes.WeightedPermInfo{Accounts: []spendingtypes.WeightedAccount{{Account: c.Accounts[2].Addr.String(), Weight: dec(p.Weight)}}},
-			c.Accounts[1].Addr, false, 0)
+		now := uint64(c.Time.Unix())
+		if p.ClaimStartRel != 0 {
+			cstart = now + uint64(p.ClaimStartRel)
+		}
+		if p.ClaimEndRel != 0 {
+			cend = now + uint64(p.ClaimEndRel)
+		}
+		msg := spendingtypes.NewMsgCreateSpendingPool("dd", cstart, cend, rates, dec("0.5"), 10, 10, owners, bens(p.Weight), a1, p.Dynamic, p.DynPeriod)
 		msg.ClaimExpiry = p.Expiry
 		makeActor(h, 1)
 		h.Tx("create-spending-pool", 1, msg)
-		h.Tx("register-beneficiary", 2, spendingtypes.NewMsgRegisterSpendingPoolBeneficiary("dd", c.Accounts[2].Addr))
-		h.Tx("deposit-spending-pool", 1, spendingtypes.NewMsgDepositSpendingPool("dd", ukex(p.Deposit), c.Accounts[1].Addr))
-		log = append(log, fmt.Sprintf("a1 (made a network actor by a0) creates pool dd rate=%dukex/s claim_expiry=%d beneficiary a2 weight=%s; a2 registers; a1 deposits %dukex", p.Rate, p.Expiry, p.Weight, p.Deposit))
+		h.Tx("register-beneficiary", 2, spendingtypes.NewMsgRegisterSpendingPoolBeneficiary("dd", a2))
+		if !p.RegisterLate {
+			// a3 stays unregistered unless it registers late: an unregistered beneficiary makes Distribution.Apply return an error
+		}
+		h.Tx("deposit-spending-pool", 1, spendingtypes.NewMsgDepositSpendingPool("dd", ukex(p.Deposit), a1))
+		log = append(log, fmt.Sprintf("a1 (made a network actor by a0) creates pool dd rate=%dukex/s dynamic=%v period=%d claim_start=%d claim_end=%d (creation time %d) claim_expiry=%d beneficiaries a2 weight=%s, a3 weight=1; a2 registers; a1 deposits %dukex",
+			p.Rate, p.Dynamic, p.DynPeriod, cstart, cend, now, p.Expiry, p.Weight, p.Deposit))
 	}, nil)
+	distPid := uint64(1)
 	h.Block(BlockReq{Dt: p.DtSubmit}, func() {
-		msg, _ := govtypes.NewMsgSubmitProposal(c.Accounts[1].Addr, "d", "d", spendingtypes.NewSpendingPoolDistributionProposal("dd"))
+		if p.UpdateWeight != "" {
+			content := spendingtypes.NewUpdateSpendingPoolProposal("dd", cstart, cend, rates, dec("0.5"), 10, 10, owners, bens(p.UpdateWeight), p.Dynamic, p.DynPeriod)
+			msg, _ := govtypes.NewMsgSubmitProposal(a1, "u", "u", content)
+			res := h.Tx("submit-proposal", 1, msg)
+			log = append(log, fmt.Sprintf("a1 submits UpdateSpendingPool(dd, weight of a2 := %s) code=%d", p.UpdateWeight, res.Code))
+			if res.Code == 0 {
+				h.Tx("vote-proposal", 1, govtypes.NewMsgVoteProposal(1, a1, govtypes.OptionYes, sdk.ZeroDec()))
+				distPid = 2
+			}
+		}
+		msg, _ := govtypes.NewMsgSubmitProposal(a1, "d", "d", spendingtypes.NewSpendingPoolDistributionProposal("dd"))
 		res := h.Tx("submit-proposal", 1, msg)
 		log = append(log, fmt.Sprintf("%ds later a1 submits SpendingPoolDistribution(dd) code=%d", p.DtSubmit, res.Code))
-		res = h.Tx("vote-proposal", 1, govtypes.NewMsgVoteProposal(1, c.Accounts[1].Addr, govtypes.OptionYes, sdk.ZeroDec()))
+		res = h.Tx("vote-proposal", 1, govtypes.NewMsgVoteProposal(distPid, a1, govtypes.OptionYes, sdk.ZeroDec()))
 		log = append(log, fmt.Sprintf("a1 votes yes code=%d", res.Code))
 	}, nil)
 	var out []Case
 	for b := 0; b < len(p.Dts) && !h.Halted; b++ {
 		var site string
 		var sj interface{}
-		h.Block(BlockReq{Dt: p.Dts[b]}, nil, func(ctx sdk.Context) {
-			due := proposalDue(ctx, c, 1)
-			pool := c.App.SpendingKeeper.GetSpendingPool(ctx, "dd")
-			ci := c.App.SpendingKeeper.GetClaimInfo(ctx, "dd", c.Accounts[2].Addr)
+		h.Block(BlockReq{Dt: p.Dts[b]}, func() {
+			if b == 0 {
+				if p.RegisterLate {
+					res := h.Tx("register-beneficiary", 3, spendingtypes.NewMsgRegisterSpendingPoolBeneficiary("dd", a3))
+					log = append(log, fmt.Sprintf("a3 registers after the submission code=%d", res.Code))
+				}
+				if p.ClaimBetween {
+					res := h.Tx("claim-spending-pool", 2, spendingtypes.NewMsgClaimSpendingPool("dd", a2))
+					log = append(log, fmt.Sprintf("a2 claims between submission and enactment code=%d", res.Code))
+				}
+				if p.DepositLater > 0 {
+					h.Tx("deposit-spending-pool", 4, spendingtypes.NewMsgDepositSpendingPool("dd", ukex(p.DepositLater), c.Accounts[4].Addr))
+					log = append(log, fmt.Sprintf("a4 deposits %dukex", p.DepositLater))
+				}
+			}
+		}, func(ctx sdk.Context) {
+			k := c.App.SpendingKeeper
+			due := proposalDue(ctx, c, distPid)
+			if distPid == 2 && proposalDue(ctx, c, 1) {
+				due = false // the update proposal is enacted first in this very EndBlock: the state the claim sees is not readable here
+			}
+			pool := k.GetSpendingPool(ctx, "dd")
+			ci := k.GetClaimInfo(ctx, "dd", a2)
+			ci3 := k.GetClaimInfo(ctx, "dd", a3)
 			last := uint64(0)
 			if ci != nil {
 				last = ci.LastClaim
 			}
 			pb := poolBal(ctx, c, "dd")
-			site = fmt.Sprintf("(SClaim %s %s %s %s %s %s %s %s %s)", hx.B(due && ci != nil), hx.ZInt(pb), hx.ZBig(sdk.NewDec(p.Rate).BigInt()), hx.ZBig(dec(p.Weight).BigInt()),
-				hx.ZU(pool.ClaimStart), hx.ZU(last), hx.Z(ctx.BlockTime().Unix()), hx.ZU(pool.ClaimEnd), hx.ZU(pool.ClaimExpiry))
-			sj = map[string]interface{}{"due": due, "pool_balance": pb.String(), "rate": p.Rate, "weight": p.Weight, "claim_start": pool.ClaimStart, "last_claim": last,
-				"now": ctx.BlockTime().Unix(), "claim_end": pool.ClaimEnd, "claim_expiry": pool.ClaimExpiry}
+			w := k.GetBeneficiaryWeight(ctx, a2, *pool.Beneficiaries)
+			rate := sdk.DecCoins(pool.Rates).AmountOf("ukex")
+			single := ci != nil && ci3 == nil && len(pool.Rates) <= 1
+			site = fmt.Sprintf("(SClaim %s %s %s %s %s %s %s %s %s %s %s)", hx.B(due && single), hx.ZInt(pb), hx.ZBig(rate.BigInt()), hx.ZBig(w.BigInt()),
+				hx.ZU(pool.ClaimStart), hx.ZU(last), hx.Z(ctx.BlockTime().Unix()), hx.ZU(pool.ClaimEnd), hx.ZU(pool.ClaimExpiry), hx.B(pool.DynamicRate), hx.ZU(pool.LastDynamicRateCalcTime))
+			sj = map[string]interface{}{"distribution_due": due, "modelled(single registered beneficiary)": due && single, "pool_balance": pb.String(), "rate": rate.String(), "weight": w.String(),
+				"claim_start": pool.ClaimStart, "last_claim": last, "now": ctx.BlockTime().Unix(), "claim_end": pool.ClaimEnd, "claim_expiry": pool.ClaimExpiry,
+				"dynamic": pool.DynamicRate, "last_rate_calc": pool.LastDynamicRateCalcTime}
 		})
 		log = append(log, fmt.Sprintf("block dt=%d", p.Dts[b]))
 		out = append(out, siteCase("spend-distribution-enact", site, sj, h, append([]string{}, log...), p))
